@@ -40,18 +40,18 @@ def _on_alarm(signum, frame):
     from hxv import SRC
 
     if frame is not None and frame.f_code.co_filename.startswith(SRC):
-        signal.setitimer(signal.ITIMER_VIRTUAL, _WATCH["limit"])  # the rest of the case gets a fresh budget
+        signal.setitimer(signal.ITIMER_PROF, _WATCH["limit"])  # the rest of the case gets a fresh budget
         _WATCH["fired"] = True
         raise CaseTimeout("no result within the per-case watchdog")
-    signal.setitimer(signal.ITIMER_VIRTUAL, 0.02)
+    signal.setitimer(signal.ITIMER_PROF, 0.02)
 
 
 def _watched(mod, case, limit):
     import signal
 
     _WATCH["limit"] = limit
-    signal.signal(signal.SIGVTALRM, _on_alarm)
-    signal.setitimer(signal.ITIMER_VIRTUAL, limit)  # CPU seconds of this process: immune to machine load
+    signal.signal(signal.SIGPROF, _on_alarm)
+    signal.setitimer(signal.ITIMER_PROF, limit)  # CPU seconds (user + system, so that a page-faulting runaway allocation counts) of this process: immune to machine load
     try:
         return mod.run_case(case)
     except (MemoryError, CaseTimeout) as exc:
@@ -60,13 +60,13 @@ def _watched(mod, case, limit):
 
         from hxv.lib import Result, Violation, exc_site
 
-        signal.setitimer(signal.ITIMER_VIRTUAL, 0)
+        signal.setitimer(signal.ITIMER_PROF, 0)
         site = exc_site(exc)
         del exc
         gc.collect()
         return Result([Violation("hangs-or-runs-away", "watchdog", f"runaway computation or allocation (last library frame {site})")], False, [])
     finally:
-        signal.setitimer(signal.ITIMER_VIRTUAL, 0)
+        signal.setitimer(signal.ITIMER_PROF, 0)
 
 
 def guarded(mod, case):
@@ -134,7 +134,7 @@ def _run_shard(prop, idx, tier, seed, t_end):
     from hxv.lib import case_hash
 
     try:  # backstop against a runaway allocation inside the library
-        resource.setrlimit(resource.RLIMIT_AS, (6 << 30, 6 << 30))
+        resource.setrlimit(resource.RLIMIT_AS, (3 << 30, 3 << 30))  # 16 workers x 3 GB stays below the machine's memory
     except (ValueError, OSError):
         pass
 
@@ -313,7 +313,8 @@ def write_replay(prop, sig, shard_name, info):
     return rel
 
 
-GRACE = {"quick": 420, "thorough": 2400}  # seconds past the soft wall cap before a silent worker is given up
+GRACE = {"quick": 420, "thorough": 2400}
+RETRY_WAIT = 420  # seconds a lost shard gets when it is run again  # seconds past the soft wall cap before a silent worker is given up
 
 
 def _shard_child(arg, conn):
@@ -355,8 +356,8 @@ def run_parallel(args, jobs, deadline):
             for rd, (pr, a) in live.items():
                 pr.kill()
                 pr.join(10)
-                again.append(a)
-            again += todo
+                again.append((a, "silent past the deadline"))
+            again += [(a, "not started before the deadline") for a in todo]
             live, todo = {}, []
             break
         for rd in wait(list(live), timeout=min(left, 30)):
@@ -364,12 +365,29 @@ def run_parallel(args, jobs, deadline):
             try:
                 results.append(rd.recv())
             except (EOFError, OSError):
-                again.append(a)  # the process ended without reporting (killed by a limit, say)
+                pr.join(30)
+                again.append((a, pr.exitcode))  # the process ended without reporting (killed by a limit, say)
             rd.close()
             pr.join(30)
-    for a in again:
-        print(f"note: shard {a[1]} gave no result from its worker process; running it in the main process", file=sys.stderr, flush=True)
-        results.append(run_shard(a[:4] + (time.time() + 600,)))
+    for a, code in again:
+        # once more, in a fresh process (never in this one: what ended the worker - the interpreter killed by a memory
+        # limit, a crash in C code - would end the whole check); a second death is reported as a finding of its own
+        print(f"note: shard {a[1]} gave no result from its worker process (exit code {code}); running it again", file=sys.stderr, flush=True)
+        rd, wr = ctx.Pipe(duplex=False)
+        pr = ctx.Process(target=_shard_child, args=(a[:4] + (time.time() + 600,), wr), daemon=True)
+        pr.start()
+        wr.close()
+        got = None
+        if wait([rd], timeout=RETRY_WAIT):
+            try:
+                got = rd.recv()
+            except (EOFError, OSError):
+                got = None
+        if got is None:
+            pr.kill()
+        pr.join(30)
+        rd.close()
+        results.append(got if got is not None else {"shard": a[1], "died": pr.exitcode if pr.exitcode is not None else code})
     return results
 
 
@@ -386,6 +404,12 @@ def regress_cases(prop):
 
 def main_check(prop, tier, seed, only=None, jobs=None):
     t0 = time.time()
+    try:  # the regression replays run in this process: the same backstop as in the shard workers
+        import resource
+
+        resource.setrlimit(resource.RLIMIT_AS, (3 << 30, 3 << 30))
+    except (ValueError, OSError):
+        pass
     mod = importlib.import_module(f"hxv.props.{prop.lower()}")
     shards = mod.shards(tier)
     known = load_known(prop)
@@ -426,6 +450,14 @@ def main_check(prop, tier, seed, only=None, jobs=None):
     for r in sorted(results, key=lambda r: r["shard"]):
         if "error" in r:
             errors.append(f"shard {shards[r['shard']].name}: {r['error']}")
+            continue
+        if "died" in r:
+            # the worker process of this shard ended twice without a result: something the library did on a generated
+            # case took the interpreter down (memory limit, crash). Reported like a runaway computation.
+            sh = shards[r["shard"]]
+            exhaustive_all = False
+            sig = f"{prop}|{sh.subject or sh.name}|hangs-or-runs-away|worker-process-died"
+            new.setdefault(sig, {"case": {"shard": sh.name, "seed": seed, "tier": tier, "note": "re-run this shard: python -m hxv %s --tier %s --seed %s --only %s" % (prop, tier, seed, sh.name)}, "detail": f"the worker process of shard {sh.name} ended without a result twice (exit code {r['died']})", "count": 1, "shard": sh.name})
             continue
         evals += r["evals"]
         nontrivial.update(f"{r['name']}:{h}" for h in r["nontrivial"])
